@@ -72,6 +72,14 @@ theorem dagToMag_adjacent_iff_inseparable (hwf : G.WF) (hun : G.un = []) (hcirc 
   · intro h
     exact ⟨haG, hbG, hab, Or.inl (e1.mpr h), haL, haS, hbL, hbS⟩
 
+/-- inducing paths are symmetric (via T5a and the symmetry of m-separation) -/
+theorem hasInducingPath_symm (hwf : G.WF) (hun : G.un = []) (hsl : NoSelfLoop G)
+    (hSn : ∀ s ∈ S, s ∈ G.nodes) (hLS : ∀ v, v ∈ L → v ∉ S) {a b : Nat} (hab : a ≠ b)
+    (ha : a ∈ G.nodes) (hb : b ∈ G.nodes) (haS : a ∉ S) (hbS : b ∉ S)
+    (h : HasInducingPath G L S a b) : HasInducingPath G L S b a :=
+  (T5.inducing_iff_inseparable hwf hun hsl (L := L) (S := S) (Ne.symm hab) hb ha hbS haS hSn hLS).mpr
+    (inseparable_symm ((T5.inducing_iff_inseparable hwf hun hsl (L := L) (S := S) hab ha hb haS hbS hSn hLS).mp h))
+
 /-- non-vacuity -/
 example : NoSelfLoop exG := by
   intro a ma mb h
